@@ -110,6 +110,7 @@ def run_history(seed, length):
     """Executed inside a worker process. Returns (history, failure or None, stats)."""
     rng = random.Random(seed)
     hist = gen_history(rng, length)
+    ops.CHECKERS.clear()     # a caller's long-lived Checker objects belong to one history
     mutated_between = False
     seen_create = False
     with sandbox("c09") as box:
